@@ -8,6 +8,8 @@ verdict : ChunksTrace (property-level predicates) on the values returned by the 
 from __future__ import annotations
 
 import json
+
+import numpy as np
 import random
 
 from ..core import Ctx, Machinery
@@ -40,13 +42,21 @@ def spec_to_py(spec):
     return tuple(out)
 
 
-def call_validate(shape, spec, limit, int_form=False):
+def call_validate(shape, spec, limit, int_form=False, limit_form="int"):
+    """limit_form: the same element limit as an int, as a byte string for the dtype ("64 B" for 8 complex64 elements), or as "auto"
+    under the configuration dask.chunk-size = that many bytes (set AFTER import, inside a context: the limit in force at call time)"""
     from abtem.core import chunks as C
+    import abtem
     rec = {"f": "validate", "shape": list(shape), "spec": [list(c) for c in spec], "limit": limit,
-           "raised": False, "res": [], "ranges": [], "iter": True, "int_form": int_form}
+           "raised": False, "res": [], "ranges": [], "iter": True, "int_form": int_form, "limit_form": limit_form}
     try:
         if int_form:
             res = C.validate_chunks(tuple(shape), int(limit))
+        elif limit_form == "bytes":
+            res = C.validate_chunks(tuple(shape), spec_to_py(spec), max_elements=f"{8 * int(limit)} B", dtype=np.complex64)
+        elif limit_form == "auto_config":
+            with abtem.config.set({"dask.chunk-size": f"{8 * int(limit)} B"}):
+                res = C.validate_chunks(tuple(shape), spec_to_py(spec), max_elements="auto", dtype=np.complex64)
         else:
             res = C.validate_chunks(tuple(shape), spec_to_py(spec), max_elements=int(limit))
         rec["res"] = [[int(x) for x in c] for c in res]
@@ -68,7 +78,10 @@ def call_equal(n, m, by_size=False):
     from abtem.core import chunks as C
     rec = {"f": "equal_size" if by_size else "equal", "n": n, "m": m, "raised": False, "res": [], "ranges": []}
     try:
-        res = C.equal_sized_chunks(n, chunk_size=m) if by_size else C.equal_sized_chunks(n, num_chunks=m)
+        from ..forms import reform
+        # the same numbers as NumPy integer scalars (what arithmetic on shapes produces); 0-d arrays are not integers and are not offered
+        nn, mm = reform(n, (n + m) % 2), reform(m, (n + 2 * m + 1) % 2)
+        res = C.equal_sized_chunks(nn, chunk_size=mm) if by_size else C.equal_sized_chunks(nn, num_chunks=mm)
         rec["res"] = [int(x) for x in res]
         if not by_size:
             rec["ranges"] = [[int(a), int(b)] for a, b in C.generate_chunks(n, num_chunks=m)]
@@ -167,9 +180,10 @@ def run(ctx: Ctx):
                 parts = [b - a for a, b in zip([0] + cuts, cuts + [n])]
                 spec.append(parts if len(parts) > 1 else [-1])
         lim = rng.choice([1, 2, 3, 5, 8, 16, 30, 64, 200, 1000])
-        ev = call_validate(shape, spec, lim)
+        form = rng.choice(["int", "int", "int", "bytes", "auto_config"])
+        ev = call_validate(shape, spec, lim, limit_form=form)
         calls.append(ev)
-        ctx.case(("r", json.dumps([shape, spec, lim])), nontrivial=not ev["raised"])
+        ctx.case(("r", json.dumps([shape, spec, lim, form])), nontrivial=not ev["raised"])
         n, m = rng.randint(0, 300), rng.randint(1, 40)
         ev = call_equal(n, m, by_size=rng.random() < 0.4)
         calls.append(ev)
@@ -182,7 +196,7 @@ def run(ctx: Ctx):
 def replay(ctx: Ctx, case):
     ev = case["call"]
     if ev["f"] == "validate":
-        new = call_validate(ev["shape"], ev["spec"], ev["limit"], ev.get("int_form", False))
+        new = call_validate(ev["shape"], ev["spec"], ev["limit"], ev.get("int_form", False), ev.get("limit_form", "int"))
     else:
         new = call_equal(ev["n"], ev["m"], by_size=ev["f"] == "equal_size")
     ctx.case("replay")
